@@ -48,12 +48,15 @@ JudgeStr(o) ==
   LET X == <<<<"str", S>>>> IN
   LET exempt == NeedsUnicodeEscape(S) IN
   LET model == WriteString(S) IN
+  LET model1 == WriteStringOneLine(S) IN        \* what the token-based generator writes
+  LET HasTok(x) == \E k \in 1..Len(x.gens) : x.gens[k] = "token" IN
+  LET HasOther(x) == \E k \in 1..Len(x.gens) : x.gens[k] # "token" IN
   LET one(x) ==
         IF x.status # "ok" THEN [luau |-> FALSE, l51 |-> FALSE, model |-> FALSE]
         ELSE LET b == B(x.out) IN LET a == Lex(b, TRUE) IN LET c == Lex(b, FALSE) IN
              [luau |-> a.ok /\ View(a) = Template("str", x.ctx, X),
               l51  |-> exempt \/ (c.ok /\ View(c) = Template("str", x.ctx, X)),
-              model |-> ContainsSeq(b, model)] IN
+              model |-> (HasOther(x) => ContainsSeq(b, model)) /\ (HasTok(x) => ContainsSeq(b, model1))] IN
   LET v == [k \in 1..Len(o.outs) |-> one(o.outs[k])] IN
   LET bad == {k \in 1..Len(v) : ~(v[k].luau /\ v[k].l51)} IN
   [id |-> o.id, kind |-> o.kind, ok |-> bad = {}, n |-> Len(v), okv |-> [k \in 1..Len(v) |-> k \notin bad],
@@ -105,7 +108,14 @@ JudgeParse(o) ==
   LET accepted == o.status = "ok" IN
   LET und == Wide(o.text) IN
   LET same == accepted /\ ~und /\ FOfDecimal(o.text) = <<o.hi, o.lo>> IN
-  [id |-> o.id, kind |-> o.kind, ok |-> ~accepted \/ und \/ same, n |-> 1, okv |-> <<~accepted \/ und \/ same>>,
+  \* `return <spelling>` through the rule convert_luau_number under each generator (o.conv): the literal written reads back as
+  \* the value of the spelling (runs that ended with an error value write nothing and impose nothing)
+  LET convs == IF "conv" \in DOMAIN o THEN o.conv ELSE <<>> IN
+  LET cgood(c) == c.status # "ok" \/
+        LET r == Lex(B(c.out), TRUE) IN
+        r.ok /\ Len(View(r)) >= 2 /\ View(r)[1] = KW("return") /\ EvalX(SubSeq(View(r), 2, Len(View(r)))) = FOfDecimal(o.text) IN
+  LET convok == ~accepted \/ und \/ \A k \in 1..Len(convs) : cgood(convs[k]) IN
+  [id |-> o.id, kind |-> o.kind, ok |-> (~accepted \/ und \/ same) /\ convok, n |-> 1, okv |-> <<(~accepted \/ und \/ same) /\ convok>>,
    luau_ok |-> TRUE, l51_ok |-> TRUE, exempt51 |-> FALSE, value_ok |-> same, model_ok |-> TRUE, undecided |-> und \/ ~accepted]
 \* ---- source spellings of strings: the value darklua's reader gave the literal (o.val) is the value the reference lexer
 \* (Luau rules) gives it; spellings the reference lexer rejects, or darklua's parser rejects, are undecided (C12's subject)
